@@ -1,7 +1,8 @@
 (* Properties/C07.v — ONLY the property theorems of C07 (each closed by [exact lemma]) and their
    Print Assumptions.  They speak about the layout calculus C07.Model / C07.ModelTF (tied to /repo
    by the correspondence of ./check C07; its shape arithmetic is C06.Ref).  [repaired] = the
-   behaviour after the proposed fixes, [as_is] = today's tree with its open defects. *)
+   behaviour after the fix: commits (plus the two findings still open, N2/N5, repaired),
+   [as_is] = the pinned tree before those commits, one flag per defect. *)
 From Coq Require Import QArith.
 From Precond Require Import Base.PyLib C06.Ref.
 From Precond Require Import C07.Layout C07.Model C07.ModelTF C07.Infra C07.Proofs C07.ProofsSharded
@@ -91,7 +92,8 @@ Theorem c07_bookkeeping_total : forall c p,
 Proof. exact bookkeeping. Qed.
 Print Assumptions c07_bookkeeping_total.
 
-(* --- today's tree: the full statements are refuted, the provable ones carry the exclusion --- *)
+(* --- the tree before the fix: commits ([as_is]): the full statements are refuted, the provable ones
+   carry the exclusion --- *)
 Theorem c07_accepted_runs_refuted_D7 : exists c t l,
   ds_accepts as_is c = Ok tt /\ ds_init as_is c t = Ok l /\ ds_update as_is c t l = Internal [7].
 Proof. exact d7_refuted. Qed.
